@@ -10,6 +10,10 @@ func (Node).GetRange
   pure
   trusted
 
+func (Node).Token
+  pure
+  trusted
+
 func (Declaration).Name
   pure
   trusted
